@@ -170,6 +170,13 @@ pub fn plan(prop: &str, tier: Tier) -> Option<Plan> {
                 v
             },
         ),
+        #[cfg(feature = "serde")]
+        "C17" => (
+            "exploration",
+            "proptest-generated values of a recursive Val type (30 variants driving every Serializer entry point: all integer widths incl. 128-bit, floats by bit pattern, char, str, bytes, none/some, unit, unit/newtype/tuple struct, seq, tuple, map, struct, the four enum variant forms; depth <=4, width <=6). (a) A recording serializer logs every call with its arguments and fails at its k-th call (k = every call when <=12 calls, else 6 generated/boundary points, plus the fault-free run): the call log and the result of serialising Arc<Val> and UniqueArc<Val> must equal those of serialising the Val. (b) A recording / failing deserializer over the Val: Arc::<Val>::deserialize and UniqueArc::<Val>::deserialize versus Val::deserialize on identical deserializers: same calls, both Ok with equal values and the Arc is a sole owner living in a block allocated during the call, or both Err with the same error and nothing allocated during the call survives; after dropping all results the set of live tracked blocks is unchanged. (c) Arc<u64>, Arc<String>, Arc<Vec<u32>>, Arc/UniqueArc<(u8,String)> through serde's own in-memory value deserialisers, incl. type errors and a too-short sequence. Non-trivial: value of depth >=2, or a fault injected strictly inside the call.".into(),
+            vec!["serde feature on (default configuration)".into(), "the recording serializer/deserializer are the harness's own".into()],
+            vec![job(eng::serde_eng::SerdeEngine, if q { 30_000 } else { 1_000_000 }, "all")],
+        ),
         _ => return None,
     };
     Some(Plan { property: prop.to_string(), level, rule, assumptions, jobs })
